@@ -9,6 +9,29 @@ fn unhex(s: &str) -> Vec<u8> {
     (0..s.len() / 2).map(|i| u8::from_str_radix(&s[2 * i..2 * i + 2], 16).unwrap()).collect()
 }
 
+fn h<T: std::hash::Hash>(t: &T) -> u64 {
+    use std::hash::Hasher;
+    let mut s = std::collections::hash_map::DefaultHasher::new();
+    t.hash(&mut s);
+    s.finish()
+}
+
+/// the C12 laws, evaluated on concrete values with the real impls
+fn laws<T: PartialEq + Ord + std::hash::Hash + Clone>(a: &T, b: &T, c: &T) -> Vec<&'static str> {
+    use std::cmp::Ordering;
+    let mut bad = vec![];
+    if !(a == a) { bad.push("reflexive"); }
+    if (a == b) != (b == a) { bad.push("symmetric"); }
+    if a == b && b == c && !(a == c) { bad.push("transitive"); }
+    if (a.cmp(b) == Ordering::Equal) != (a == b) { bad.push("cmp-Equal-iff-eq"); }
+    if a.cmp(b) != b.cmp(a).reverse() { bad.push("antisymmetric"); }
+    if a.cmp(b) != Ordering::Greater && b.cmp(c) != Ordering::Greater && a.cmp(c) == Ordering::Greater { bad.push("order-transitive"); }
+    if let Some(o) = a.partial_cmp(b) { if o != a.cmp(b) { bad.push("partial-agrees-with-total"); } }
+    if a == b && h(a) != h(b) { bad.push("eq-implies-hash"); }
+    if !(a.clone() == *a) { bad.push("clone-equal"); }
+    bad
+}
+
 fn main() {
     let args: Vec<String> = std::env::args().collect();
     let fam = args.get(1).map(|s| s.as_str()).unwrap_or("");
@@ -30,6 +53,32 @@ fn main() {
             let s = String::from_utf8_lossy(&bytes).to_string();
             let r = Filter::try_from(s.as_str());
             println!("RESULT filter {}", match r { Ok(f) => format!("ok {f}"), Err(e) => format!("err {e}") });
+        }
+        // ---- C12: equality / hash / order laws on the real impls; exit 3 = a law is violated
+        "number-laws" | "number-hash" => {
+            let f = |i: usize| args[i].parse::<f64>().unwrap();
+            let (a, b) = (Number::make(f(2)), Number::make(f(3)));
+            let c = if args.len() > 4 { Number::make(f(4)) } else { a };
+            let bad = laws(&a, &b, &c);
+            println!("RESULT {fam} a={a:?} b={b:?} c={c:?} eq={} cmp={:?} partial={:?} hash_eq={} violated={bad:?}", a == b, a.cmp(&b), a.partial_cmp(&b), h(&a) == h(&b));
+            if !bad.is_empty() { std::process::exit(3); }
+        }
+        "number-units" => {
+            let pick = |k: u8| match k { 0 => None, 1 => libhaystack::units::get_unit("m"), _ => libhaystack::units::get_unit("s") };
+            let (ka, kb) = (args[2].parse::<u8>().unwrap(), args[3].parse::<u8>().unwrap());
+            let a = Number { value: args[4].parse::<f64>().unwrap(), unit: pick(ka) };
+            let b = Number { value: args[5].parse::<f64>().unwrap(), unit: pick(kb) };
+            let bad = laws(&a, &b, &a);
+            println!("RESULT {fam} a={a:?} b={b:?} eq={} cmp={:?} partial={:?} violated={bad:?}", a == b, a.cmp(&b), a.partial_cmp(&b));
+            if !bad.is_empty() { std::process::exit(3); }
+        }
+        "coord-laws" | "coord-hash" => {
+            let f = |i: usize| args[i].parse::<f64>().unwrap();
+            let (a, b) = (Coord::make(f(2), f(3)), Coord::make(f(4), f(5)));
+            let c = if args.len() > 7 { Coord::make(f(6), f(7)) } else { a };
+            let bad = laws(&a, &b, &c);
+            println!("RESULT {fam} a={a:?} b={b:?} c={c:?} eq={} cmp={:?} partial={:?} hash_eq={} violated={bad:?}", a == b, a.cmp(&b), a.partial_cmp(&b), h(&a) == h(&b));
+            if !bad.is_empty() { std::process::exit(3); }
         }
         // batch <zinc|filter>: hex inputs on stdin, one per line; "B i" before, "E i <ok|err|panic>" after each
         "batch" => {
